@@ -11,7 +11,17 @@ VC=/tmp/mut-verif-$TAG
 git -C /repo worktree add -q "$WT" HEAD || exit 2
 if ! git -C "$WT" apply "$PATCH"; then echo "PATCH-DOES-NOT-APPLY"; git -C /repo worktree remove --force "$WT"; exit 2; fi
 mkdir -p "$VC"
-rsync -a --exclude .git --exclude .cache/scratch --exclude .cache/cases --exclude replays /verif/ "$VC"/
+rsync -a --exclude .git --exclude .cache/scratch --exclude .cache/cases --exclude .cache/mutants --exclude .cache/runlogs --exclude replays /verif/ "$VC"/
+# the copy must be the COMMITTED /verif (builders may be editing the working tree): put every file
+# that differs from HEAD back to its committed content (fresh mtime, so make rebuilds what depends
+# on it) and remove untracked files
+git -C /verif status --porcelain --untracked-files=all | while IFS= read -r line; do
+  st="${line:0:2}"; f="${line:3}"
+  case "$st" in
+    "??") rm -f "$VC/$f" ;;
+    *) if git -C /verif cat-file -e "HEAD:$f" 2>/dev/null; then git -C /verif show "HEAD:$f" > "$VC/$f"; else rm -f "$VC/$f"; fi ;;
+  esac
+done
 for P in "$@"; do
   echo "=== mutant $(basename "$PATCH") check $P"
   ( cd "$VC" && S4_REPO="$WT" timeout 1500 ./check "$P" 2>&1 | grep -E "VIOLATION|KNOWN-FINDING|OBLIGATION|ok tier|FAIL tier" | cut -c1-300 )
